@@ -275,6 +275,13 @@ pub assume_specification<T, F: FnOnce() -> Option<T>> [Option::<T>::or_else] (o:
 pub struct Rx { pub which: u8 }  // 0 urgent 1 high 2 normal
 #[derive(Clone)]
 pub struct Tx { pub which: u8 }
+// std::mem::replace
+pub assume_specification<T> [core::mem::replace::<T>] (dest: &mut T, src: T) -> (r: T)
+    ensures *final(dest) == src, r == *old(dest);
+// tokio::sync::mpsc::unbounded_channel(): the two ends of one new queue (that successive calls make different queues is not expressible without
+// global state: a structural obligation counts the three calls of priority::new)
+#[verifier::external_body]
+pub fn unbounded_channel() -> (r: (Tx, Rx)) ensures r.0.which == r.1.which { unimplemented!() }
 pub open spec fn q(env: &Env, w: u8) -> Seq<ControlMessage> { if w == 0 { env.urgent@ } else if w == 1 { env.high@ } else { env.normal@ } }
 pub open spec fn others_same(a: &Env, b: &Env, w: u8) -> bool {
     (w != 0 ==> b.urgent == a.urgent) && (w != 1 ==> b.high == a.high) && (w != 2 ==> b.normal == a.normal) && b.now == a.now && same_world(a, b)
